@@ -406,6 +406,8 @@ def fmt(e, depth=0):
         return "residual(%s)" % f(e[1])
     if t == "phi":
         return "φ%s" % (e[2] or ("_%d" % e[1]))
+    if t == "ivc":
+        return "%s∈[%s,%s]" % (e[3] if len(e) > 3 else "v", e[1], e[2])
     if t == "cteq":
         return "ct_eq(%s, %s)" % (f(e[1]), f(e[2]))
     if t == "repeat":
